@@ -165,6 +165,13 @@ def shape_of(world, t):
     return (r[5] - r[3] + 1, r[6] - r[4] + 1)
 
 
+def regen_value(rng, world, t):
+    h, w = shape_of(world, t)
+    if (h, w) == (1, 1):
+        return gen_value(rng)
+    return [[gen_value(rng) for _ in range(w)] for _ in range(h)]
+
+
 def gen_inputs(rng, world, n, blanks=False):
     ins = []
     for t in gen_targets(rng, world, n, True, blanks):
@@ -198,6 +205,50 @@ def gen_op(rng, world, kind_file):
     return op
 
 
+def add_cover_of_array(rng, world):
+    """If the world has an array-formula cell, sometimes add a formula over a
+    rectangle that contains the whole block plus a neighbouring row / column
+    (such a range node distributes a supplied value onto a multi-cell node)."""
+    arrs = [c for c in world['cells'] if 'arr' in c]
+    if not arrs or not rng.chance(.6):
+        return
+    idx = Index(world)
+    a = rng.pick(arrs)
+    b, s, r1, c1, r2, c2 = cell_rect(a)
+    h, w = world['books'][b][s]
+    grow = rng.pick(['left', 'right', 'up', 'down', 'none'])
+    if grow == 'left' and c1 > 0:
+        c1 -= 1
+    elif grow == 'right' and c2 < w - 1:
+        c2 += 1
+    elif grow == 'up' and r1 > 0:
+        r1 -= 1
+    elif grow == 'down' and r2 < h - 1:
+        r2 += 1
+    rect = ['r', b, s, r1, c1, r2, c2]
+    # the new cell must not lie inside the rectangle nor upstream of the block
+    free = [(b, s, r, c) for r in range(h + 1) for c in range(w + 1)
+            if idx.occupant((b, s, r, c)) is None and
+            not (r1 <= r <= r2 and c1 <= c <= c2)]
+    covered = set()
+    for c in world['cells']:
+        if 'f' in c:
+            for x in refs_of(c['f']):
+                rr = x if x[0] == 'r' else world['names'][x[1]]['t']
+                covered.update(rect_cells(rr))
+    for n in world['names']:
+        covered.update(rect_cells(n['t']))
+    free = [p for p in free if p not in covered]
+    if not free:
+        return
+    # every populated member must have been created before (it is: the new
+    # cell is appended last)
+    at = rng.pick(free)
+    world['cells'].append({'at': list(at), 'f': ['f', rng.pick(
+        ['SUM', 'MAX', 'COUNT']), rect]})
+    world['books'][b][s] = [max(h, at[2] + 1), max(w, at[3] + 1)]
+
+
 def generate(seed, tier):
     t = TIERS[tier]
     rng = Rng(seed, 'world')
@@ -211,6 +262,7 @@ def generate(seed, tier):
         w_if=sw.pick([0, 2]), w_iferror=sw.pick([0, 1]),
     )
     world = gen_world(rng, prof)
+    add_cover_of_array(Rng(seed, 'cover'), world)
     frng = Rng(seed, 'fault')
     # SIMFAULT wrappers around some formulas
     if sw.chance(.5):
@@ -238,6 +290,14 @@ def generate(seed, tier):
                                      blanks=orng.chance(.3)),
                 'outputs': gen_targets(orng, world, orng.randrange(1, 4),
                                        False) if orng.chance(.3) else None}
+    # the same targets overridden again with OTHER values: half of the
+    # earlier calculations re-use the targets of the observed one (a stale
+    # value left by the earlier override must not survive)
+    for op in ops:
+        if op['op'] in ('calc', 'calc_fault') and observed['inputs'] and \
+                orng.chance(.5):
+            op['inputs'] = [[copy.deepcopy(tg), regen_value(orng, world, tg)]
+                            for tg, _ in observed['inputs']]
     return {'prop': ID, 'seed': seed, 'tier': tier, 'world': world,
             'schedule': s, 'ops': ops, 'observed': observed}
 
